@@ -1,4 +1,5 @@
 import E3fpVerif.Model.Fprinter
+import E3fpVerif.Lemmas.SortBy
 namespace E3fpVerif.Props.C18
 open E3fpVerif
 
@@ -14,5 +15,285 @@ theorem hydrogens_not_retained (o : Opts) (m : MolG) (a : Nat) (h : a ∈ retain
   · simp only [List.mem_map, List.mem_filter] at h
     obtain ⟨x, ⟨hx, hc⟩, rfl⟩ := h
     exact ⟨x, hx, rfl, by simpa using hc⟩
+
+/-! ## the frame property: only decisions about retained atoms are ever consulted -/
+
+/-- two geometries agree on a set of atoms: every shell-membership test between two of them, and
+every stereo call whose centre and neighbour atoms are among them, give the same answer -/
+def GeoAgree (atoms : List Nat) (g₁ g₂ : Geo) : Prop :=
+  (∀ k a b, a ∈ atoms → b ∈ atoms → g₁.within k a b = g₂.within k a b) ∧
+  (∀ c tuples, c ∈ atoms → (∀ t ∈ tuples, t.2.2 ∈ atoms) → g₁.stereo c tuples = g₂.stereo c tuples)
+
+theorem GeoAgree.refl (atoms : List Nat) (g : Geo) : GeoAgree atoms g g :=
+  ⟨fun _ _ _ _ _ => rfl, fun _ _ _ _ => rfl⟩
+
+theorem GeoAgree.symm {atoms : List Nat} {g₁ g₂ : Geo} (h : GeoAgree atoms g₁ g₂) : GeoAgree atoms g₂ g₁ :=
+  ⟨fun k a b ha hb => (h.1 k a b ha hb).symm, fun c t hc ht => (h.2 c t hc ht).symm⟩
+
+/-- the neighbour tuples only reach `g.stereo` with centre and neighbours in `atoms` -/
+theorem atomTuples_agree (o : Opts) (m : MolG) (g₁ g₂ : Geo) (atoms : List Nat) (hg : GeoAgree atoms g₁ g₂)
+    (prev : List GShell) (a : Nat) (nb : List Nat) (ha : a ∈ atoms) (hnb : ∀ b ∈ nb, b ∈ atoms) :
+    atomTuples o m g₁ prev a nb = atomTuples o m g₂ prev a nb := by
+  unfold atomTuples
+  have hs : g₁.stereo a (sortByLt lt3 (nb.map (fun b => (conn m a b, (shellOf prev b).ident, b))))
+      = g₂.stereo a (sortByLt lt3 (nb.map (fun b => (conn m a b, (shellOf prev b).ident, b)))) := by
+    apply hg.2 _ _ ha
+    intro t ht
+    rw [mem_sortByLt] at ht
+    obtain ⟨b, hb, rfl⟩ := List.mem_map.1 ht
+    exact hnb b hb
+  simp only [hs]
+
+theorem shellIdent_agree (o : Opts) (m : MolG) (g₁ g₂ : Geo) (atoms : List Nat) (hg : GeoAgree atoms g₁ g₂)
+    (prev : List GShell) (k a : Nat) (nb : List Nat) (ha : a ∈ atoms) (hnb : ∀ b ∈ nb, b ∈ atoms) :
+    shellIdent o m g₁ prev k a nb = shellIdent o m g₂ prev k a nb := by
+  unfold shellIdent
+  rw [atomTuples_agree o m g₁ g₂ atoms hg prev a nb ha hnb]
+
+theorem genLevel_agree (o : Opts) (m : MolG) (g₁ g₂ : Geo) (atoms : List Nat) (hg : GeoAgree atoms g₁ g₂)
+    (prev : List GShell) (k : Nat) (t : Intern) :
+    genLevel o m g₁ atoms prev k t = genLevel o m g₂ atoms prev k t := by
+  unfold genLevel
+  apply foldl_congr_mem
+  intro acc a ha
+  have hf : atoms.filter (fun b => b != a && g₁.within k a b && (o.includeDisconnected || bonded m a b))
+      = atoms.filter (fun b => b != a && g₂.within k a b && (o.includeDisconnected || bonded m a b)) := by
+    apply List.filter_congr
+    intro b hb
+    rw [hg.1 k a b ha hb]
+  simp only [hf]
+  rw [shellIdent_agree o m g₁ g₂ atoms hg prev k a _ ha (fun b hb => (List.mem_filter.1 hb).1)]
+
+theorem stepState_agree (o : Opts) (m : MolG) (g₁ g₂ : Geo) (atoms : List Nat) (hg : GeoAgree atoms g₁ g₂)
+    (s : FState) : stepState o m g₁ atoms s = stepState o m g₂ atoms s := by
+  unfold stepState
+  simp only [genLevel_agree o m g₁ g₂ atoms hg]
+
+theorem iterate_agree (o : Opts) (m : MolG) (g₁ g₂ : Geo) (atoms : List Nat) (hg : GeoAgree atoms g₁ g₂)
+    (fuel : Nat) (s : FState) : iterate o m g₁ atoms fuel s = iterate o m g₂ atoms fuel s := by
+  induction fuel generalizing s with
+  | zero => rfl
+  | succ n ih =>
+    unfold iterate
+    rw [stepState_agree o m g₁ g₂ atoms hg s]
+    split
+    · rfl
+    · exact ih _
+
+/-- the run only consults the geometry on retained atoms -/
+theorem runFp_agree (o : Opts) (m : MolG) (g₁ g₂ : Geo) (hg : GeoAgree (retained o m) g₁ g₂) :
+    runFp o m g₁ = runFp o m g₂ := by
+  unfold runFp
+  simp only [iterate_agree o m g₁ g₂ (retained o m) hg]
+
+variable {α : Type} [Scalar α]
+
+/-- coordinates that coincide on `atoms` give geometries that agree on `atoms` -/
+theorem ofCoords_agree (mult : α) (X X' : Nat → V3 α) (atoms : List Nat) (h : ∀ a ∈ atoms, X a = X' a) :
+    GeoAgree atoms (Geo.ofCoords mult X) (Geo.ofCoords mult X') := by
+  constructor
+  · intro k a b ha hb
+    simp only [Geo.ofCoords, h a ha, h b hb]
+  · intro c tuples hc ht
+    simp only [Geo.ofCoords]
+    congr 1
+    apply List.map_congr_left
+    intro t htm
+    rw [h c hc, h _ (ht t htm)]
+
+/-- **frame theorem**: the coordinates of atoms that are not retained (hydrogens; unbonded heavy
+atoms when exclusion is on) are never read -/
+theorem frame (o : Opts) (m : MolG) (mult : α) (X X' : Nat → V3 α) (h : ∀ a ∈ retained o m, X a = X' a) :
+    runFp o m (Geo.ofCoords mult X) = runFp o m (Geo.ofCoords mult X') :=
+  runFp_agree o m _ _ (ofCoords_agree mult X X' (retained o m) h)
+
+/-- hence the fingerprint at any level, folding and mask does not depend on them either -/
+theorem frame_fingerprint (o : Opts) (m : MolG) (mult : α) (X X' : Nat → V3 α) (h : ∀ a ∈ retained o m, X a = X' a)
+    (req : Option Int) (bits : Option Nat) (mask : List Nat) :
+    (runFp o m (Geo.ofCoords mult X) >>= fun s => fingerprintAt o s req bits mask)
+      = (runFp o m (Geo.ofCoords mult X') >>= fun s => fingerprintAt o s req bits mask) := by
+  rw [frame o m mult X X' h]
+
+/-! ### non-vacuity of the frame statements -/
+
+/-- a test molecule: C(0)–O(1)–H(2) and an unbonded heavy atom 3 -/
+def exMol : MolG :=
+  { atoms := [⟨0, 6, 1, [1], [1]⟩, ⟨1, 8, 2, [2], [2]⟩, ⟨2, 1, 1, [3], [3]⟩, ⟨3, 17, 0, [4], [4]⟩],
+    bonds := [(0, 1, 1), (1, 2, 1)] }
+def exOpts (excl : Bool) : Opts :=
+  { bits := 1024, level := 2, stereo := true, counts := false, includeDisconnected := true,
+    rdkitInvariants := false, excludeFloating := excl, removeDup := true }
+
+example : retained (exOpts true) exMol = [0, 1] := by decide
+example : retained (exOpts false) exMol = [0, 1, 3] := by decide
+
+/-- two geometries that differ (on atoms 2, 3) but agree on the retained atoms `[0, 1]` -/
+def exG₁ : Geo := { within := fun _ _ _ => true, stereo := fun _ t => t.map (fun _ => 0) }
+def exG₂ : Geo :=
+  { within := fun _ a b => a ≤ 1 && b ≤ 1, stereo := fun _ t => t.map (fun x => if x.2.2 ≤ 1 then 0 else 1) }
+
+example : GeoAgree (retained (exOpts true) exMol) exG₁ exG₂ ∧ exG₁.within 0 2 3 ≠ exG₂.within 0 2 3 := by
+  have hr : retained (exOpts true) exMol = [0, 1] := by decide
+  rw [hr]
+  refine ⟨⟨?_, ?_⟩, by decide⟩
+  · intro k a b ha hb
+    simp only [List.mem_cons, List.not_mem_nil, or_false] at ha hb
+    rcases ha with rfl | rfl <;> rcases hb with rfl | rfl <;> rfl
+  · intro c tuples _ ht
+    simp only [exG₁, exG₂]
+    apply List.map_congr_left
+    intro t htm
+    have := ht t htm
+    simp only [List.mem_cons, List.not_mem_nil, or_false] at this
+    rcases this with h | h <;> simp [h]
+
+/-- the hypothesis of `frame` is satisfiable by coordinates that really differ: move the hydrogen
+(atom 2) and the floating atom (atom 3) anywhere -/
+example (X : Nat → V3 α) (p q : V3 α) :
+    runFp (exOpts true) exMol (Geo.ofCoords (Scalar.ofNat 2) X)
+      = runFp (exOpts true) exMol (Geo.ofCoords (Scalar.ofNat 2) (fun a => if a = 2 then p else if a = 3 then q else X a)) := by
+  apply frame
+  have hr : retained (exOpts true) exMol = [0, 1] := by decide
+  rw [hr]
+  intro a ha
+  simp only [List.mem_cons, List.not_mem_nil, or_false] at ha
+  rcases ha with rfl | rfl <;> simp
+
+/-! ## floating atoms -/
+
+/-- with `exclude_floating` and more than one heavy atom, a retained atom is a heavy atom with at
+least one bond -/
+theorem floating_not_retained (o : Opts) (m : MolG) (a : Nat) (hx : o.excludeFloating = true)
+    (hh : ((m.atoms.filter (fun a => a.atomicNum > 1)).map (·.idx)).length > 1) (h : a ∈ retained o m) :
+    ∃ x ∈ m.atoms, x.idx = a ∧ x.atomicNum > 1 ∧ x.degree > 0 := by
+  unfold retained at h
+  simp only [hx, Bool.true_and, decide_eq_true_eq] at h
+  rw [if_pos hh] at h
+  simp only [List.mem_map, List.mem_filter] at h
+  obtain ⟨x, ⟨hx, hc⟩, rfl⟩ := h
+  simp at hc
+  exact ⟨x, hx, rfl, hc.1, hc.2⟩
+
+/-- the same, read the other way: an atom without bonds whose index is its own is not retained -/
+theorem floating_excluded (o : Opts) (m : MolG) (x : AtomInfo) (hx : o.excludeFloating = true)
+    (hh : ((m.atoms.filter (fun a => a.atomicNum > 1)).map (·.idx)).length > 1)
+    (hu : ∀ y ∈ m.atoms, y.idx = x.idx → y = x) (hd : x.degree = 0) : x.idx ∉ retained o m := by
+  intro h
+  obtain ⟨y, hy, hi, _, hdeg⟩ := floating_not_retained o m x.idx hx hh h
+  rw [hu y hy hi] at hdeg
+  omega
+
+example : (exOpts true).excludeFloating = true
+    ∧ ((exMol.atoms.filter (fun a => a.atomicNum > 1)).map (·.idx)).length > 1
+    ∧ 1 ∈ retained (exOpts true) exMol ∧ 3 ∉ retained (exOpts true) exMol := by decide
+
+/-- without `exclude_floating` every heavy atom is retained, bonded or not -/
+theorem heavy_retained (o : Opts) (m : MolG) (hx : o.excludeFloating = false) (x : AtomInfo) (hm : x ∈ m.atoms)
+    (hz : x.atomicNum > 1) : x.idx ∈ retained o m := by
+  unfold retained
+  simp only [hx, Bool.false_and, Bool.false_eq_true, if_false]
+  exact List.mem_map.2 ⟨x, List.mem_filter.2 ⟨hm, by simpa using hz⟩, rfl⟩
+
+/-- the level-0 shells: one per atom, in order, with the atom's invariant hash as identifier -/
+theorem genLevel0_shells (o : Opts) (m : MolG) (atoms : List Nat) (t : Intern) :
+    (genLevel0 o m atoms t).2.map (fun s => (s.atom, s.sub, s.nbrs, s.ident))
+      = atoms.map (fun a => (a, [a], [], initIdent o m a)) := by
+  unfold genLevel0
+  suffices h : ∀ (acc : Intern × List GShell),
+      (atoms.foldl (fun (acc : Intern × List GShell) a =>
+        let (t', i) := intern acc.1 (a, [])
+        (t', acc.2 ++ [{ atom := a, sid := i, sub := [a], nbrs := [], ident := initIdent o m a }])) acc).2.map
+          (fun s => (s.atom, s.sub, s.nbrs, s.ident))
+        = acc.2.map (fun s => (s.atom, s.sub, s.nbrs, s.ident)) ++ atoms.map (fun a => (a, [a], [], initIdent o m a)) by
+    simpa using h (t, [])
+  induction atoms with
+  | nil => intro acc; simp
+  | cons a as ih =>
+    intro acc
+    simp only [List.foldl_cons, List.map_cons]
+    rw [ih]
+    simp
+
+theorem genLevel0_atoms (o : Opts) (m : MolG) (atoms : List Nat) (t : Intern) :
+    (genLevel0 o m atoms t).2.map (·.atom) = atoms := by
+  have h := congrArg (List.map (·.1)) (genLevel0_shells o m atoms t)
+  simpa [List.map_map, Function.comp_def] using h
+
+/-- after level 0 the fingerprinter holds exactly one level of shells, one shell per atom -/
+theorem initState_levelShells (o : Opts) (m : MolG) (atoms : List Nat) :
+    ∃ l0, (initState o m atoms).levelShells = [l0] ∧ l0.map (·.atom) = atoms
+      ∧ l0.map (·.ident) = atoms.map (initIdent o m) := by
+  refine ⟨(genLevel0 o m atoms []).2, rfl, genLevel0_atoms o m atoms [], ?_⟩
+  have h := congrArg (List.map (·.2.2.2)) (genLevel0_shells o m atoms [])
+  simpa [List.map_map, Function.comp_def] using h
+
+/-- without `exclude_floating`, every heavy atom (bonded or not) is retained and is the centre of a
+level-0 shell of the initial state, whose identifier is the hash of its invariants -/
+theorem floating_contribute (o : Opts) (m : MolG) (hx : o.excludeFloating = false) :
+    (∀ x ∈ m.atoms, x.atomicNum > 1 → x.idx ∈ retained o m) ∧
+    ∃ l0, (initState o m (retained o m)).levelShells = [l0] ∧ l0.map (·.atom) = retained o m ∧
+      ∀ a ∈ retained o m, ∃ s ∈ l0, s.atom = a ∧ s.ident = initIdent o m a := by
+  refine ⟨fun x hm hz => heavy_retained o m hx x hm hz, (genLevel0 o m (retained o m) []).2, rfl,
+    genLevel0_atoms o m _ [], ?_⟩
+  intro a ha
+  have h := genLevel0_shells o m (retained o m) []
+  have hmem : (a, [a], ([] : List Nat), initIdent o m a) ∈
+      (retained o m).map (fun a => (a, [a], ([] : List Nat), initIdent o m a)) := List.mem_map.2 ⟨a, ha, rfl⟩
+  rw [← h] at hmem
+  obtain ⟨s, hs, he⟩ := List.mem_map.1 hmem
+  simp only [Prod.mk.injEq] at he
+  exact ⟨s, hs, he.1, he.2.2.2⟩
+
+example : (exOpts false).excludeFloating = false ∧ 3 ∈ retained (exOpts false) exMol := by decide
+
+/-! ### the level-0 shells survive the iteration -/
+
+theorem stepState_levelShells (o : Opts) (m : MolG) (g : Geo) (atoms : List Nat) (s s' : FState)
+    (h : stepState o m g atoms s = some s') : ∃ ls, s'.levelShells = s.levelShells ++ [ls] := by
+  unfold stepState at h
+  simp only at h
+  repeat' split at h
+  all_goals first | (injection h with h; subst h; exact ⟨_, rfl⟩) | cases h
+
+theorem iterate_levelShells (o : Opts) (m : MolG) (g : Geo) (atoms : List Nat) (fuel : Nat) (s : FState) :
+    ∃ ext, (iterate o m g atoms fuel s).levelShells = s.levelShells ++ ext := by
+  induction fuel generalizing s with
+  | zero => exact ⟨[], by simp [iterate]⟩
+  | succ n ih =>
+    unfold iterate
+    split
+    · exact ⟨[], by simp⟩
+    · rename_i s' hs
+      obtain ⟨ls, h1⟩ := stepState_levelShells o m g atoms s s' hs
+      obtain ⟨ext, h2⟩ := ih s'
+      exact ⟨[ls] ++ ext, by rw [h2, h1]; simp⟩
+
+/-- in the final state of a successful run, level 0 holds one shell per retained atom: every retained
+atom (in particular every floating heavy atom when exclusion is off) contributes to the fingerprint -/
+theorem runFp_level0 (o : Opts) (m : MolG) (g : Geo) (s : FState) (h : runFp o m g = .ok s) :
+    ∃ l0, s.levelShells.head? = some l0 ∧ l0.map (·.atom) = retained o m
+      ∧ l0.map (·.ident) = (retained o m).map (initIdent o m) := by
+  unfold runFp at h
+  simp only at h
+  split at h
+  · cases h
+  · split at h
+    · cases h
+    · split at h
+      · cases h
+      · injection h with h
+        obtain ⟨l0, h0, ha, hi⟩ := initState_levelShells o m (retained o m)
+        obtain ⟨ext, he⟩ := iterate_levelShells o m g (retained o m)
+          (if o.level = -1 then 2 ^ (retained o m).length + 1 else o.level.toNat) (initState o m (retained o m))
+        refine ⟨l0, ?_, ha, hi⟩
+        rw [← h, he, h0]
+        rfl
+
+example : ∃ s, runFp (exOpts false) exMol exG₁ = .ok s := by
+  unfold runFp
+  rw [if_neg (by decide), if_neg (by decide)]
+  simp only
+  rw [if_neg (by decide)]
+  exact ⟨_, rfl⟩
 
 end E3fpVerif.Props.C18
